@@ -152,6 +152,8 @@ class AugmentFrame(Unit):
         yield "vertex b and edge (a,b) missing", dict(have_v=["a"], have_e=[])
         yield "only edge (a,b) missing", dict(have_v=["a", "b"], have_e=[])
         yield "nothing missing", dict(have_v=["a", "b"], have_e=[("a", "b")])
+        # the graph being augmented also holds a vertex and an edge that the supplied nodes do not declare (e.g. a recorded tap x -> b): they must survive
+        yield "extra undeclared vertex and edge present", dict(have_v=["a", "x"], have_e=[("x", "a")])
 
     def opts(self, cfg):
         def scan(ex, f, init, xs, length):
@@ -170,7 +172,8 @@ class AugmentFrame(Unit):
         ctx.require(n >= 1)
         mkv = lambda t: Rec("Vertex", dict(seq=Arr.fresh(f"{t}.seq", INT, n), ts_start=Arr.fresh(f"{t}.ts_start", REAL, n), ts_end=Arr.fresh(f"{t}.ts_end", REAL, n)), module=BASE, frozen=True)
         V = {k: mkv("old." + k) for k in cfg["have_v"]}
-        E = {k: Rec("Edge", dict(seq_out=Arr.fresh("old.e.seq_out", INT, n), seq_in=Arr.fresh("old.e.seq_in", INT, n), ts_recv=Arr.fresh("old.e.ts_recv", REAL, n)), module=BASE, frozen=True) for k in cfg["have_e"]}
+        E = {k: Rec("Edge", dict(seq_out=Arr.fresh(f"old.e.{k[0]}{k[1]}.seq_out", INT, n), seq_in=Arr.fresh(f"old.e.{k[0]}{k[1]}.seq_in", INT, n), ts_recv=Arr.fresh(f"old.e.{k[0]}{k[1]}.ts_recv", REAL, n)), module=BASE, frozen=True)
+             for k in cfg["have_e"]}
         g = Rec("Graph", dict(vertices=V, edges=E), module=BASE, frozen=True)
         env["ts_max"] = Arr.fresh("ts_max_all", REAL, z3.Int("num_episodes"))
         ex.assume(z3.Int("num_episodes") >= 1)
@@ -197,7 +200,8 @@ class AugmentFrame(Unit):
             return
         ctx.ensure("C12 every existing vertex is returned unchanged (the very same arrays)", z3.BoolVal(all(out.f["vertices"].get(k) is V[k] for k in V)))
         ctx.ensure("C12 every existing edge is returned unchanged", z3.BoolVal(all(out.f["edges"].get(k) is E[k] for k in E)))
-        ctx.ensure("C12 exactly the missing nodes and connections are added", z3.BoolVal(set(out.f["vertices"]) == {"a", "b"} and set(out.f["edges"]) == {("a", "b")}))
+        ctx.ensure("C12 exactly the missing nodes and connections are added (everything that was there stays, declared by the supplied nodes or not)",
+                   z3.BoolVal(set(out.f["vertices"]) == {"a", "b"} | set(V) and set(out.f["edges"]) == {("a", "b")} | set(E)))
         if ("a", "b") not in E:
             e = out.f["edges"][("a", "b")]
             so = out.f["vertices"]["a"].f["seq"]
